@@ -43,6 +43,7 @@ ClausesOf ==
    C11 |-> {"C11_ProbeImmediate", "C11_UnicastReply", "C11_UnicastEcho", "C11_NoFlushInUnicast", "C11_SameSocket", "C11_UnexpectedUnicast",
             "C11_MulticastFormat", "C11_WellFormedReply", "C11_QuRouting", "C11_LegacyAlsoMulticast"},
    C12 |-> {"C12_NoEarlyOrUnsolicited", "C12_AnsweredAtOnce", "C12_By500", "C12_ProtectedBy1200", "C12_NoDuplicateInBatch"},
+   C12A |-> {"C12_AdditionalWithinSecond"},
    C12S |-> {"C12_OneSecondAfterAnySighting"},
    C08 |-> {"C08_GoodbyeComplete", "C08_NoResurrection", "C08_AnnouncementComplete"},
    C15 |-> {"C15_NoException", "C15_OversizeIgnored", "C15_InvalidIgnored", "C15_CanaryAdded", "C15_CanaryAnswered"},
@@ -448,6 +449,11 @@ OnMulticastReply(st, e) ==
      ELSE IF Bad(\E r \in an : OCand(st, r, t) # {} /\ \A o \in OCand(st, r, t) : t < o.s2, "C12_OneSecondAfterAnySighting")
           THEN Fail(st, "C12_OneSecondAfterAnySighting")
      ELSE IF ContentClause(st, e, an, {}) # "" THEN Fail(st, ContentClause(st, e, an, {}))
+     \* the one-second rule is about every record of the datagram: an additional record the host saw multicast less than a
+     \* second ago does not ride along either (replies to probes excepted)
+     ELSE IF Bad(/\ ~\E r \in an : \E o \in OCand(st, r, t) : o.cls = "probe"
+                 /\ \E r \in RidsOf(e.ar) : st.seen[r] # None /\ t - st.seen[r].c < 1000, "C12_AdditionalWithinSecond")
+          THEN Fail(st, "C12_AdditionalWithinSecond")
      ELSE [st EXCEPT !.obl = {IF o.r \in an /\ o.st # "used" /\ o.qt <= t /\ OCand(st, o.r, t) # {}
                               THEN (IF o = OwnObl(st, o.r, t) THEN [o EXCEPT !.st = "used"]
                                     ELSE [o EXCEPT !.st = "cov"])
